@@ -111,6 +111,7 @@ type ProbeObs struct {
 	Current   string   `json:"current"`    // %T of eval.Current() at the call
 	Composite bool     `json:"composite"`  // eval.Current() implements expr.CompositeExpr
 	UserType  bool     `json:"user_type"`  // eval.Current() implements expr.UserType
+	DType     string   `json:"dtype"`      // data type of the attribute eval.Current() is / wraps (Model.dkind), "" if none
 	Incompat  bool     `json:"incompat"`   // an "invalid use of" error was recorded during the call
 	OtherErr  bool     `json:"other_err"`  // some other error was recorded during the call
 	Panicked  bool     `json:"panicked"`   // the call panicked
@@ -310,7 +311,7 @@ func (in *interp) call(c *Call) {
 		cur := eval.Current()
 		_, comp := cur.(expr.CompositeExpr)
 		_, ut := cur.(expr.UserType)
-		in.probe = &ProbeObs{Current: fmt.Sprintf("%T", cur), Composite: comp, UserType: ut, Panicked: true}
+		in.probe = &ProbeObs{Current: fmt.Sprintf("%T", cur), Composite: comp, UserType: ut, DType: dkindOf(cur), Panicked: true}
 		n0 = len(eval.Context.Errors)
 		in.inProbe = true
 	}
@@ -344,6 +345,47 @@ func (in *interp) call(c *Call) {
 			}
 		}
 	}
+}
+
+// dkindOf names the data type of the attribute a context stands for.
+func dkindOf(cur eval.Expression) string {
+	var a *expr.AttributeExpr
+	switch e := cur.(type) {
+	case *expr.AttributeExpr:
+		a = e
+	case expr.CompositeExpr:
+		a = e.Attribute()
+	default:
+		return ""
+	}
+	if a == nil {
+		return ""
+	}
+	switch t := a.Type.(type) {
+	case nil:
+		return "DNil"
+	case expr.Primitive:
+		if t == expr.Any {
+			return "DAny"
+		}
+		return "DPrim"
+	case *expr.Array:
+		return "DArray"
+	case *expr.Map:
+		return "DMap"
+	case *expr.Object:
+		return "DObject"
+	case *expr.Union:
+		return "DUnion"
+	case *expr.ResultTypeExpr:
+		if expr.IsArray(t) {
+			return "DCollection"
+		}
+		return "DResultType"
+	case expr.UserType:
+		return "DUser"
+	}
+	return "DOther"
 }
 
 func trunc(s string, n int) string {
